@@ -390,6 +390,7 @@ type TxRes struct {
 	Log       string `json:"log,omitempty"`
 	Signer    string `json:"signer,omitempty"`
 	Hash      string `json:"hash,omitempty"`
+	Raw       string `json:"raw,omitempty"` // the transaction bytes (only when the job asks for them)
 }
 
 type BlockRes struct {
@@ -648,6 +649,9 @@ func (r *replica) runBlock(b BlockSpec) BlockRes {
 	for i, tx := range txs {
 		res := r.app.DeliverTx(abci.RequestDeliverTx{Tx: tx})
 		tr := TxRes{Code: res.Code, Codespace: res.Codespace, Data: hex.EncodeToString(res.Data), Log: res.Log, Signer: roleOf(res.Signer), Hash: hex.EncodeToString(tx.Hash())}
+		if r.args["return_raw"] == "1" {
+			tr.Raw = hex.EncodeToString(tx)
+		}
 		br.Txs = append(br.Txs, tr)
 		_ = batch.Add(&tmtypes.TxResult{Height: h, Index: uint32(i), Tx: tx, Result: res})
 		if t := b.Txs[i]; res.Code == 0 && t.Kind == "send" && strings.HasPrefix(t.Args["to"], "module:") {
